@@ -121,12 +121,16 @@ def gen_scripts(spec_dir, module, cfg, outdir, num, depth, seed, workers=4, time
     res = run_tlc(spec_dir, module, cfg, outdir, simulate=max(1, num // workers), depth=depth, seed=seed,
                   workers=workers, timeout=timeout, deadlock=False)
     scripts = []
+    seen = set()
     for line in res.text.splitlines():
         line = line.strip()
         if line.startswith('<<"%s"' % marker):
             m = re.match(r'<<"%s", "(.*)">>$' % marker, line)
             if m:
                 js = m.group(1).encode().decode("unicode_escape")
+                if js in seen:
+                    continue
+                seen.add(js)
                 try:
                     scripts.append(json.loads(js))
                 except ValueError:
